@@ -12,6 +12,10 @@
 (* C18.InfoAgrees: the entries carry exactly cores_per_node / gpus_per_node *)
 (* usable cores / GPUs of the same RMInfo (at agent_0 and in the registry   *)
 (* copy); C18.RefusesInconsistent: an uninterpretable host file is refused. *)
+(* C18.Reachable: no node whose probe was refused or never answered is      *)
+(* offered; C18.NotShorter: nodes being down do not shrink the pilot while   *)
+(* healthy nodes are left.  "C17.AgentNodesAsTold": the same facts read as   *)
+(* "the agent ends up with the nodes it was told" (reported under C17).      *)
 (* "D20." the backup list does not name the spare nodes (known deviation,  *)
 (* outside the statement of C18).                                          *)
 (***************************************************************************)
@@ -32,7 +36,8 @@ Conv(J) ==
        uneven |-> J.uneven, style |-> J.style,
        cores |-> J.cores, smt |-> J.smt, known |-> J.known, gpn |-> J.gpn, gpusrc |-> J.gpusrc,
        bc |-> SeqSet(J.bc), bg |-> SeqSet(J.bg), requested |-> J.requested, slack |-> J.slack,
-       backup |-> J.backup, agents |-> J.agents, service |-> J.service]
+       backup |-> J.backup, agents |-> J.agents, service |-> J.service,
+       refused |-> SeqSet(J.refused), hangs |-> SeqSet(J.hangs)]
 
 ToEntry(e)  == [name |-> e.name, index |-> e.index,
                 cores |-> [c \in 1 .. Len(e.cores) |-> e.cores[c]],
@@ -55,6 +60,10 @@ OfferErrs(p) ==
   \cup E(Reserved(p, in),   "C18.Reserved")
   \cup E(NonEmpty(p),       "C18.NonEmpty")
   \cup E(NotLonger(p, in),  "C18.NotLonger")
+  \cup E(Reachable(p, in),  "C18.Reachable")
+  \cup E(NotShorter(p, in), "C18.NotShorter")
+  \* C17: the agent ends up with the number of nodes it was told, on reachable nodes
+  \cup E(Len(AllOf(p)) = Granted(in) /\ Reachable(p, in), "C17.AgentNodesAsTold")
   \cup E(~Uninterpretable(in), "C18.RefusesInconsistent")
   \cup E(~ExpectError(in),  "M18.OfferedDespiteShortage")
   \cup (IF ee THEN {}
@@ -94,6 +103,7 @@ Step ==
           [] e.ev = "Failed" ->
                /\ last' = NoP
                /\ errs' = errs \cup E(Refuses(I), "C18.Initialises")
+                               \cup E(Refuses(I), "C17.AgentNodesAsTold")
           [] e.ev = "Recreated" ->
                LET p == ToP(e.P) IN
                /\ last' = last
